@@ -169,8 +169,10 @@ def all_topo_orders(chain, ids):
 
 def run_tree(mon, rng, nblocks, norders, seed_name, exhaustive_orders=False):
     world = gen.World(rng)
+    world.odd_reward_prob = rng.choice([0.0, 0.3, 0.6])     # valid rewards split over keys / with zero-valued outputs
     ids = world.grow(nblocks, rng, tx_prob=0.75, bias="mixed")
     mon.c["trees"] += 1
+    mon.c["blocks_with_unusual_reward"] = mon.c.get("blocks_with_unusual_reward", 0) + world.counters.get("odd_rewards", 0)
     mon.c["pending_tx_in_sibling_forks"] += world.counters.get("pending_tx_reused", 0)
     mon.c["blocks_with_transactions"] += sum(1 for b in ids if len(world.chain.blocks[b].txs) > 1)
     w = {"blocks": gen.blocks_hex(world, ids)}
